@@ -495,7 +495,7 @@ def consumer_probes(ctx: Ctx, rng) -> None:
         cell = lw.Circuit(2)
         cell.ps(0, lw.Parameter(0.2, label="phi"))
         cell.add(blk, 0, group=True, name="blk")
-        c.add(cell, rng.choice([1, 2]))
+        c.add(cell, rng.choice([1, 2]), group=bool(rng.getrandbits(1)))
         st = lw.State([1, 0, 1, 0])
         st_list = st.s
         objs = {"c": c, "sub": sub, "cell": cell, "blk": blk}
@@ -583,45 +583,78 @@ def _mpl(c):
     plt.close("all")
 
 
+def _report(ctx: Ctx, prog: list, ids: list, probs: list, model: bool) -> None:
+    ctx.count("histories_with_problems")
+
+    def still(sub):
+        return cg.well_formed(sub) and bool(run_case(ctx, sub, ids, model))
+
+    small = ddmin(prog, still)
+    sprobs = run_case(ctx, small, ids, model) or probs
+    oracle = [p for p in sprobs if p.startswith("oracle")]
+    rep = {"program": small, "observe": ids, "problems": sprobs, "model": model}
+    if oracle:
+        kind = "failed-call-changed" if "raised" in oracle[0] else "non-target-changed"
+        ctx.violation(oracle[0], rep, sig={"kind": kind, "ops": sorted({o[0] for o in small})})
+    else:
+        ctx.disagreement(sprobs[0], rep)
+
+
+def _one(ctx: Ctx, prog: list, ids: list, model: bool, sample: bool, blocks: bool) -> None:
+    probs = run_case(ctx, prog, ids, model)
+    res = _LAST.get("results", [])
+    adds = [op for op, r in zip(prog, res) if op[0] == "add" and r == "ok"]
+    args = [op[2] for op in adds]
+    nontriv = len(adds) >= 2 and (len(set(args)) < len(args) or any(op[1] in args for op in prog if op[0] != "add"))
+    for op in prog:
+        ctx.count("op:" + op[0])
+        if cx.param_key(op) is not None:
+            ctx.count("op:with-Parameter")
+    if blocks:
+        block_stats(ctx, prog, res)
+    ctx.case(repr(prog), nontriv, sample=prog if sample else None)
+    if probs:
+        _report(ctx, prog, ids, probs, model)
+
+
 def run(ctx: Ctx) -> None:
-    ctx.rule = ("random histories of 5-30 construction calls over 2-5 live circuit objects, objects reused as "
-                "arguments (including self-addition), ~20% rejected calls; all objects snapshotted after every call; "
-                "non-trivial = history contains an accepted add whose argument is reused later or earlier; "
-                "distinct = distinct history; plus read-only consumer probes")
-    N = ctx.n(150, 4000)
+    ctx.rule = ("(1) directed building-block corpus, (2) random tiered histories (leaf -> cell holding grouped blocks -> "
+                "wrapper -> parents; placements grouped/ungrouped at mode 0 and > 0, repeated, into two parents; copies "
+                "and sums sharing components; Parameters; heralds; rejected calls), (3) random flat histories of 5-30 "
+                "construction calls over 2-5 live circuit objects, objects reused as arguments (including "
+                "self-addition), ~20% rejected calls; all objects snapshotted after every call; non-trivial = history "
+                "contains two accepted adds and an argument that is reused or edited; distinct = distinct history; plus "
+                "read-only consumer probes")
     rng = ctx.rng
-    for i in range(N):
+    # 1. corpus: every shape, several random instances each, always first, always with the model
+    for rep in range(ctx.n(2, 25)):
+        for shape in CORPUS:
+            if ctx.out_of_time():
+                break
+            b = cx.Book(rng, p_param=0.25)
+            shape(b)
+            ctx.count("corpus:" + shape.__name__)
+            _one(ctx, b.prog, b.ids, True, sample=(rep == 0 and shape is shape_tile), blocks=True)
+    # 2. random tiered histories
+    for i in range(ctx.n(60, 2500)):
+        if ctx.out_of_time():
+            break
+        prog, ids = gen_blocks(ctx, rng)
+        model = i % 3 == 0
+        ctx.count("blocks:with-model" if model else "blocks:oracle-only")
+        _one(ctx, prog, ids, model, sample=False, blocks=True)
+    # 3. flat random histories
+    for i in range(ctx.n(120, 4000)):
         if ctx.out_of_time():
             break
         prog, ids = gen_history(ctx, rng)
-        probs = run_case(ctx, prog, ids)
-        adds = [op for op in prog if op[0] == "add"]
-        args = [op[2] for op in adds]
-        nontriv = len(adds) >= 2 and (len(set(args)) < len(args) or any(op[1] in args for op in prog if op[0] != "add"))
-        for op in prog:
-            ctx.count("op:" + op[0])
-        ctx.case(repr(prog), nontriv, sample=prog if i < 1 else None)
-        if probs:
-            ctx.count("histories_with_problems")
-
-            def still(sub):
-                return cg.well_formed(sub) and bool(run_case(ctx, sub, ids))
-
-            small = ddmin(prog, still)
-            sprobs = run_case(ctx, small, ids) or probs
-            oracle = [p for p in sprobs if p.startswith("oracle")]
-            rep = {"program": small, "observe": ids, "problems": sprobs}
-            if oracle:
-                kind = "failed-call-changed" if "raised" in oracle[0] else "non-target-changed"
-                ctx.violation(oracle[0], rep, sig={"kind": kind, "ops": sorted({o[0] for o in small})})
-            else:
-                ctx.disagreement(sprobs[0], rep)
+        _one(ctx, prog, ids, True, sample=i < 1, blocks=False)
     consumer_probes(ctx, rng)
 
 
 def replay(ctx: Ctx, path: str) -> None:
     data = json.load(open(path))["replay"]
-    probs = run_case(ctx, data["program"], data["observe"])
+    probs = run_case(ctx, data["program"], data["observe"], data.get("model", True))
     ctx.case("replay", True, sample=data["program"])
     for p in probs:
         print("replay:", p)
